@@ -229,6 +229,37 @@ CHECKS["C12"] = dict(
     technique="Lean 4 exactness / iff proofs + _partial theorem delimiting an open finding + Rat/Float model correspondence",
     design="§7 C12")
 
+CHECKS["C04"] = dict(
+    text="Machine-checked (Lean 4, any ordered field) on the tree-level model of the netlist reader (parse_yaml_netlist -> Module kwargs in "
+         "document order -> setup -> Netlist.__init__) and writer (dump_yaml_module / rectangles / edges): for EVERY document the reader "
+         "accepts, the tree the writer produces is accepted again and yields the same netlist — same modules in order with the same kind "
+         "(soft, hard, fixed, terminal, flip), per-region areas, centre, aspect bounds, rectangles with regions and roles, nets with "
+         "members and weights (roundtrip, roundtrip_eq; same_iff_eq shows the comparison leaves no field out) — and writing the reloaded "
+         "netlist gives the identical tree (dump_stable). Numbers keep their Python type tag so 'identical document' is meaningful. Tied "
+         "to the code on every run: loaded object, writer's tree and re-read object compared with the model on generated documents "
+         "covering every attribute combination (thorough: all 8732 one-module attribute subsets); Netlist(n.write_yaml()) compared "
+         "field-wise with n and a second write compared with the first on the implementation itself.",
+    note="create_stog enters as a function parameter with two explicit assumptions (StogPerm: permutes and only changes roles — C06's "
+         "createStog_perm; StogStable: idempotent on its own output); ruamel text layer pinned by load(dump(tree)) == tree on every sample, "
+         "not proved; rounding tolerance 1e-9; repair committed first (per-region areas, flip).",
+    technique="Lean 4 round-trip proof on the parsed-tree model + differential execution + field-wise re-read on the implementation",
+    design="§7 C04")
+CHECKS["C05"] = dict(
+    text="Machine-checked (Lean 4): every derived quantity of a loaded netlist equals its definition on the source document — module "
+         "areas (sum of region areas; of rectangle areas for hard modules; 0 for rectangle-less terminals), centres (the running-sum code "
+         "= the area-weighted centroid), the flat and the fixed rectangle lists, the wire length (weight x sum of distances to the mean, "
+         "sqrt a parameter); and one rejection theorem per listed defect class, each of the form 'a document with this defect, defined on "
+         "the document alone, fails to load': unknown module in a net, non-positive weight, non-positive area, soft without area, hard with "
+         "area, hard without rectangles, hard with overlapping rectangles, unknown attribute, invalid name, one-pin net, non-positive "
+         "rectangle size (+ unknown root key, invalid region name). Tied to the code on every run: valid stream (derived quantities vs an "
+         "independent Fraction/mpmath oracle and vs the model) and a malformed stream with ONE defect injected anywhere (verdict and "
+         "exception class vs the model).",
+    note="sqrt, create_stog and the area tolerance are parameters of the model; duplicate YAML keys excluded (a dict cannot hold them); "
+         "'area: {}' counts as no area; the zero-area statement holds for terminals without rectangles (the code sums rectangles "
+         "otherwise); repair committed first (one-pin nets).",
+    technique="Lean 4 definitional-equality and rejection proofs on the parsed-tree model + valid/malformed differential streams + exact oracle",
+    design="§7 C05")
+
 NOT_APPLICABLE = {}
 
 def main():
